@@ -21,6 +21,10 @@ def jobs(tier, seed):
             if tier == 'quick' and perm not in ((0, 1, 2), (2, 0, 1), (1, 2, 0)):
                 continue
             add(fmt=fmt, reps=['r2', 'r10', 'r1'], nrec=[5, 5, 6], first=[1, 1, 1], step=[1, 1, 1], listing=list(perm))
+    for zeu in (False, True):
+        add(fmt='sfqcd', reps=['r0'], nrec=[5], first=[1], step=[1], p=dict(ncs=2, tmax=2, index_aim=1, zeuthen=zeu))
+    add(fmt='sfqcd', reps=['r1', 'r0'], nrec=[5, 6], first=[2, 2], step=[2, 2], p=dict(ncs=1, tmax=3, index_aim=0))
+    add(fmt='sfqcd', reps=['r0'], nrec=[6], first=[1], step=[1], p=dict(ncs=2, tmax=1, index_aim=2))
     # measurement spacing and first configuration
     for fmt in ('rwms16', 'rwms20', 'qtop'):
         add(fmt=fmt, reps=['r0'], nrec=[6], first=[2], step=[2])
@@ -67,13 +71,13 @@ CANARIES = [
 ]
 
 META = dict(
-    explanation='C17 (openQCD binary formats): read_rwms (1.4 / 1.6 / 2.0 incl. _read_array_openQCD2), read_qtop / _read_flow_obs (openQCD flow files), read_ms5_xsf, _find_files and sort_names run '
+    explanation='C17 (openQCD binary formats): read_rwms (1.4 / 1.6 / 2.0 incl. _read_array_openQCD2), read_qtop / _read_flow_obs (openQCD and sfqcd flow files), read_ms5_xsf, _find_files and sort_names run '
                 'on a typed-buffer file model in which every stored double is a distinct symbol (a mis-assignment can never cancel). The observables returned must carry, per replica name derived from '
                 'the file name and per configuration number, exactly the documented reduction of the symbols of that record (product over factors of the source average of exp(-x), timeslice sum at the '
                 'selected flow time, real / imaginary part of the selected correlator).',
     bounds='1-3 replicas (suffixes with different digit counts, every / 3 directory-listing permutations), 5-12 records, first configuration and spacing from {1,2,3,4,10}, 1-2 factors, 1-3 sources, 1-2 reweighting '
            'factors, 3 flow times x 3 timeslices, 5 of the 12 ms5_xsf correlators; r_start / r_stop / r_step selections.',
-    outside=['sfcf text formats and Hadrons hdf5 (text / h5py parsers: numbers cannot pass them symbolically) - not applicable', 'sfqcd flow variant', 'extract_t0 / extract_w0 beyond their fit contract', 'real file system'],
+    outside=['sfcf text formats and Hadrons hdf5 (text / h5py parsers: numbers cannot pass them symbolically) - not applicable', 'extract_t0 / extract_w0 beyond their fit contract', 'real file system'],
     stubs=['open / fp.read / struct.unpack / os.walk -> typed-buffer file model', 'numpy shim', 'exp uninterpreted'],
     assumptions=[],
 )
